@@ -20,6 +20,9 @@ def main(argv=None):
     if a.tier not in ("quick", "thorough"):
         a.tier = "quick"
     modname = "checks." + a.id.lower()
+    if a.id == "selftest":
+        from . import selftest
+        return selftest.main(a.tier)
     try:
         core.import_nfc()
         check = importlib.import_module(modname)
